@@ -14,6 +14,8 @@ package main
 //   stall.go, standin.go, cancel.go   the link holding bytes back, a scripted remote node,
 //              cancelled remote units
 //   long.go    one results stream open for 70 s beside everything else (unix socket and TCP)
+//   listeners.go  the same stream over every other kind of control-service listener (TCP with
+//              TLS, with client certificates, netceptor services plain and with TLS)
 //   throttle.go  a slow link: `work results` on the submitting node while its record of the remote
 //              unit is final and its copy of the output is short; Coq cases (RMCase) for
 //              Model/Results.v under the mirrored-world contract
@@ -258,7 +260,7 @@ func (s *shared) violate(what, sig string, replay interface{}) {
 
 func runC05(c *Ctx) {
 	im := NewImpl("C05", c.Seed, c.Tier)
-	im.Rule = "local: one scripted producer (bash script emitting writes and pauses of a byte pattern: empty output, 1 byte, 64 KiB multiples and straddles, output after a pause, pause before exit, failing exit, cancelled, random plans from the seed) per unit; one observation = one `work results <unit> <p>` session asked before / while / after the unit runs with p in {0, 1, write boundaries and their neighbours, size, size+1}; non-trivial = the unit has output and (the session overlaps the run or p > 0). remote: one transfer through a TCP proxy that cuts and heals the link, one observation = one 50 ms sample of (local stdout, remote stdout), non-trivial = local non-empty and shorter than remote; plus transfers over a link that holds the remote node's bytes for 300-900 ms and releases them in one write (several units, stalls repeated throughout) and transfers from a scripted stand-in remote node that writes the results header and the first output in one write or splits the header at a position (quick: a sample of positions, thorough: every position), one observation = one 50 ms look at the local stdout or one `work results` session on the mirrored unit; plus three units (Succeeded, Failed, Canceled; 0.8-1.5 MB printed at once) over a link of a few hundred KB/s, where the record on the submitting node is final with the full size while the local copy is short, one observation = one `work results` session asked at submission / at the moment the record turned final / with the copy 30-80 % complete, from 0, from beyond the copy, from its middle, its last byte and its end, non-trivial = the copy was short when asked; plus one unit writing a line every second for 64 s (thorough: 130 s) followed from offset 0 from its submission over the unix socket and over a TCP control service, beside everything else; distinct by (plan, moment, p) / sample content / (mode, offset); plus the in-process producer (white box): the real STDoutWriter and status file over a scripted file, one observation = one history of 1-11 operations (writes of 0-40 bytes, some of 60-70 KB, the file accepting all, more than offered, a strict part with or without an error, or all with an error; the status save failing at 12 % of the writes; status changes; a finishing status), non-trivial = the history has a short write, a write error or a failing save"
+	im.Rule = "local: one scripted producer (bash script emitting writes and pauses of a byte pattern: empty output, 1 byte, 64 KiB multiples and straddles, output after a pause, pause before exit, failing exit, cancelled, random plans from the seed) per unit; one observation = one `work results <unit> <p>` session asked before / while / after the unit runs with p in {0, 1, write boundaries and their neighbours, size, size+1}; non-trivial = the unit has output and (the session overlaps the run or p > 0). remote: one transfer through a TCP proxy that cuts and heals the link, one observation = one 50 ms sample of (local stdout, remote stdout), non-trivial = local non-empty and shorter than remote; plus transfers over a link that holds the remote node's bytes for 300-900 ms and releases them in one write (several units, stalls repeated throughout) and transfers from a scripted stand-in remote node that writes the results header and the first output in one write or splits the header at a position (quick: a sample of positions, thorough: every position), one observation = one 50 ms look at the local stdout or one `work results` session on the mirrored unit; plus three units (Succeeded, Failed, Canceled; 0.8-1.5 MB printed at once) over a link of a few hundred KB/s, where the record on the submitting node is final with the full size while the local copy is short, one observation = one `work results` session asked at submission / at the moment the record turned final / with the copy 30-80 % complete, from 0, from beyond the copy, from its middle, its last byte and its end, non-trivial = the copy was short when asked; plus one unit writing a line every second for 64 s (thorough: 130 s) followed from offset 0 from its submission over the unix socket and over a TCP control service, beside everything else, and over every other kind of control-service listener of the same daemon: TCP with TLS (tls-server + tcptls, certificates made with the binary's --cert-init/--cert-makereq/--cert-signreq; a TLS 1.2 and a TLS 1.3 client, a listener requiring client certificates; two more TLS sessions opened at submission that ask after 12 s and 25 s of silence) and netceptor services (plain and with a tls-server/tls-client pair, reached through `connect <node> <service> [tls]` on the unix socket), one observation = one session, a stream broken off by anything but the harness's own patience before the full output arrived counts as ended early; distinct by (plan, moment, p) / sample content / (mode, offset); plus the in-process producer (white box): the real STDoutWriter and status file over a scripted file, one observation = one history of 1-11 operations (writes of 0-40 bytes, some of 60-70 KB, the file accepting all, more than offered, a strict part with or without an error, or all with an error; the status save failing at 12 % of the writes; status changes; a finishing status), non-trivial = the history has a short write, a write error or a failing save"
 	if c.Bin == "" {
 		fmt.Fprintln(os.Stderr, "C05 needs the receptor binary (VERIF_BIN)")
 		os.Exit(3)
